@@ -44,6 +44,19 @@ def bulk_entry(kind, i):
     if kind == 6: return [i + 1, ['v4', 32, [10] + b3(i)]]
     if kind == 7: return [i + 1, ['v6', 128, v6]]
     if kind == 8: return [i + 1, ['vpn6', [100, 200], [0, 2, 0, 1, 0] + b3(i), 64 + i % 17, v6]]
+    if kind == 9:
+        ip = [] if i % 3 == 0 else ([10] + b3(i) if i % 3 == 1 else v6)
+        return [i + 1, ['evpn', 2, [0, 0, 253, 232, 0] + b3(i), pat_bytes(10, i), i, [2, 0, 0] + b3(i), ip, i % 16777216, None if i % 2 == 0 else 200]]
+    if kind == 10: return [i + 1, ['fs', 0, None, [['p', 1, 24, 0, [10] + b3(i)], ['o', 4, [[1, i % 65536], [129, 443]]]]]]
+    if kind == 11: return [i + 1, ['rtc', 2, 65000 + i % 100, [0, 2, 253, 232, 0] + b3(i)]]
+    if kind == 12: return [i + 1, ['srp', i, 100 + i % 3, [10] + b3(i)]]
+    if kind == 13: return [i + 1, ['evpn', 5, [0, 2, 0, 1, 0] + b3(i), pat_bytes(10, i), i, i % 129, v6, pat_bytes(16, i + 1), 7]]
+    if kind == 16:
+        return [i + 1, ['ls', 3, 1 + i % 7, i, [[512, [(65000 + i % 9) >> 24 & 255, (65000 + i % 9) >> 16 & 255, (65000 + i % 9) >> 8 & 255, (65000 + i % 9) & 255]],
+                                                 [515, pat_bytes(4, i)]],
+                        [[263, [(i % 4096) >> 8, (i % 4096) & 255]], [265, [24] + b3(i)]]]]
+    if kind == 15: return [i + 1, ['mup', 3, [0, 0, 253, 232, 0] + b3(i), i % 33, [10] + b3(i), i, i % 64, [192, 0, 2, 1], None if i % 2 == 0 else [198, 51, 100, 7]]]
+    if kind == 14: return [i + 1, ['fs', 1, [0, 0, 253, 232, 0] + b3(i), [['o', 3, [[129, 6]]], ['o', 5, [[3, 1000 + i % 50000], [197, 70000]]]]]]
     raise ValueError(kind)
 
 def expand_entries(segs, family=None):
@@ -70,6 +83,26 @@ def nlri_val(n):
     if t == 'lab4': return [4, n[1], n[2], n[3]]
     if t == 'lab6': return [5, n[1], n[2], n[3]]
     if t == 'raw': return [9, n[1], n[2]]
+    if t == 'fs':
+        comps = [[0, c[1], c[2], c[3], c[4]] if c[0] == 'p' else [1, c[1], [list(o) for o in c[2]]] for c in n[3]]
+        return [10, n[1], [] if n[2] is None else [n[2]], comps]
+    if t == 'rtc': return [11, n[1], n[2], n[3]]
+    if t == 'evpn':
+        k = n[1]
+        if k == 2: return [12, 2, n[2], n[3], n[4], n[5], n[6], n[7], [] if n[8] is None else [n[8]]]
+        return [12] + list(n[1:])
+    if t == 'srp': return [13, n[1], n[2], n[3]]
+    if t == 'ls':
+        tl = lambda l: [[x[0], list(x[1])] for x in l]
+        k = n[1]
+        if k == 0: return [15, 0, n[2], n[3]]
+        if k == 1: return [15, 1, n[2], n[3], tl(n[4])]
+        if k == 2: return [15, 2, n[2], n[3], tl(n[4]), tl(n[5]), tl(n[6])]
+        if k in (3, 4): return [15, k, n[2], n[3], tl(n[4]), tl(n[5])]
+        return [15, 6, n[2], n[3], tl(n[4]), tl(n[5])]
+    if t == 'mup':
+        if n[1] == 3: return [14, 3, n[2], n[3], n[4], n[5], n[6], n[7], [] if n[8] is None else [n[8]]]
+        return [14] + list(n[1:])
     raise ValueError(n)
 
 def nlri_coq(n):
@@ -81,6 +114,37 @@ def nlri_coq(n):
     if t in ('lab4', 'lab6'):
         return '(%s %s %s %s)' % ('NLab4' if t == 'lab4' else 'NLab6', cbytes(n[1]), cN(n[2]), cbytes(n[3]))
     if t == 'raw': return '(NRaw %s)' % cbytes(n[2])
+    if t == 'fs':
+        comps = clist(['(FPrefix %s %s %s %s)' % (cN(c[1]), cN(c[2]), cN(c[3]), cbytes(c[4])) if c[0] == 'p' else
+                       '(FOps %s %s)' % (cN(c[1]), clist([cpair(cN(o[0]), cN(o[1])) for o in c[2]])) for c in n[3]])
+        return '(NFlow %s %s %s)' % (cbool(n[1]), copt(None if n[2] is None else cbytes(n[2])), comps)
+    if t == 'rtc':
+        return '(NRtc %s)' % (['RtcAll', '(RtcAs %s)' % cN(n[2]), '(RtcExact %s %s)' % (cN(n[2]), cbytes(n[3]))][n[1]])
+    if t == 'evpn':
+        k = n[1]
+        if k == 1: e = 'Ev1 %s %s %s %s' % (cbytes(n[2]), cbytes(n[3]), cN(n[4]), cN(n[5]))
+        elif k == 2: e = 'Ev2 %s %s %s %s %s %s %s' % (cbytes(n[2]), cbytes(n[3]), cN(n[4]), cbytes(n[5]), cbytes(n[6]), cN(n[7]), copt(None if n[8] is None else cN(n[8])))
+        elif k == 3: e = 'Ev3 %s %s %s' % (cbytes(n[2]), cN(n[3]), cbytes(n[4]))
+        elif k == 4: e = 'Ev4 %s %s %s' % (cbytes(n[2]), cbytes(n[3]), cbytes(n[4]))
+        else: e = 'Ev5 %s %s %s %s %s %s %s' % (cbytes(n[2]), cbytes(n[3]), cN(n[4]), cN(n[5]), cbytes(n[6]), cbytes(n[7]), cN(n[8]))
+        return '(NEvpn (%s))' % e
+    if t == 'srp': return '(NSrp %s %s %s)' % (cN(n[1]), cN(n[2]), cbytes(n[3]))
+    if t == 'ls':
+        tl = lambda l: clist([cpair(cN(x[0]), cbytes(x[1])) for x in l])
+        k = n[1]
+        if k == 0: e = 'LsOther %s %s' % (cN(n[2]), cbytes(n[3]))
+        elif k == 1: e = 'LsNode %s %s %s' % (cN(n[2]), cN(n[3]), tl(n[4]))
+        elif k == 2: e = 'LsLink %s %s %s %s %s' % (cN(n[2]), cN(n[3]), tl(n[4]), tl(n[5]), tl(n[6]))
+        elif k in (3, 4): e = 'LsPfx %s %s %s %s %s' % (cbool(k == 4), cN(n[2]), cN(n[3]), tl(n[4]), tl(n[5]))
+        else: e = 'LsSrv6 %s %s %s %s' % (cN(n[2]), cN(n[3]), tl(n[4]), tl(n[5]))
+        return '(NLs (%s))' % e
+    if t == 'mup':
+        k = n[1]
+        if k == 1: e = 'Mup1 %s %s %s' % (cbytes(n[2]), cN(n[3]), cbytes(n[4]))
+        elif k == 2: e = 'Mup2 %s %s' % (cbytes(n[2]), cbytes(n[3]))
+        elif k == 3: e = 'Mup3 %s %s %s %s %s %s %s' % (cbytes(n[2]), cN(n[3]), cbytes(n[4]), cN(n[5]), cN(n[6]), cbytes(n[7]), copt(None if n[8] is None else cbytes(n[8])))
+        else: e = 'Mup4 %s %s %s %s' % (cbytes(n[2]), cN(n[3]), cbytes(n[4]), cN(n[5]))
+        return '(NMup (%s))' % e
     raise ValueError(n)
 
 def entries_coq(segs):
@@ -152,7 +216,9 @@ class Prop:
     props_file = 'Props/C04.v'
     required_theorems = ['frames_within_limit', 'decode_encode_routes', 'split_preserves_multiset', 'reach_frames_all_families',
                          'unreach_frames_all_families', 'open_roundtrip', 'frame_lengths_consistent', 'eor_frame',
-                         'peer_codec_agrees', 'as4_path_roundtrip', 'unreach_never_refused', 'reach_never_refused', 'decode_encode_routes_labeled']
+                         'peer_codec_agrees', 'as4_path_roundtrip', 'unreach_never_refused', 'reach_never_refused', 'decode_encode_routes_labeled',
+                         'decode_encode_routes_structured', 'split_preserves_multiset_structured', 'structured_fixpoint',
+                         'decode_encode_decode_fixpoint_nlri']
     extra_targets = ['Model/WireEnc.vo']
     correspondence_name = 'Model/WireEnc.v encode_to vs rustybgp_packet::bgp::PeerCodec::encode_to (harness/hx-enc), debug and release'
     rule = ('case = (local capabilities, remote capabilities, message); messages: OPEN with capability lists whose encoded size runs through 255 '
@@ -160,23 +226,32 @@ class Prop:
             'unknown), entry counts 0 .. 3 frames (procedural bulk entries of mixed sizes around the frame boundary), attribute blocks 0 .. above the '
             'frame limit (4096 and 65535), ADD-PATH modes, extended message on one/both sides, two-octet-AS sessions with wide AS numbers / '
             'confederation segments / AGGREGATOR, next hops of 4/16/32 octets or none per family, VPN / labeled NLRI with 1-4 labels, a malformed '
-            'stream (masks past the address size, truncated AS_PATH, value attributes with binary codes, label stacks past 255 bits); '
+            'stream (masks past the address size, truncated AS_PATH, value attributes with binary codes, label stacks past 255 bits); plus the '
+            'audit classes enumerated on every run (tag audit): exact-fit sweeps per wire form, attribute / AS_PATH / AGGREGATOR / OPEN / '
+            'NOTIFICATION boundaries, every prefix length, label depths up to 255 bits, ADD-PATH / session / negotiation matrices, and per family '
+            'every component / route type / descriptor with the values on both sides of every length switch (Flowspec 239/240/241 and 4095, '
+            'operator widths 255/256, 65535/65536, 2^32); '
             'non-trivial = a Reach/Unreach with >= 1 entry or an OPEN with capabilities that was encoded; distinct = distinct '
             '(kind, family, frame count, entry count, digest of the bytes written)')
     exhaustive = {'quick': False, 'thorough': False}
     trusted_base = [
         'Model/WireEnc.v covers PeerCodec::negotiate / encode_to / do_encode / put_entries / mp_reach_encode / mp_unreach_encode, Attribute::encode, '
-        'the RFC 6793 down-conversion helpers, Capability::encode, Notification::from_notification, Ipv4Net / Ipv6Net / VPN / labeled / MPLS label '
-        'encoders; NLRI of the other 11 families (EVPN, Flowspec x4, BGP-LS, MUP x2, SR Policy x2, RTC) enter the model as their wire bytes: their '
-        'framing, splitting and size accounting are modelled and proved, their inner encoding is checked only differentially (harness builds them '
-        'with the crate\'s own per-family decode, the python oracle compares what the peer decodes, byte for byte)',
+        'the RFC 6793 down-conversion helpers, Capability::encode, Notification::from_notification, and the NLRI encoders of all 19 families of the '
+        'code: Ipv4Net / Ipv6Net, VPN, labeled (incl. encode_withdraw), MPLS labels, Flowspec x4 (components, operator widths, length prefix), RTC, '
+        'EVPN route types 1-5, SR Policy, MUP route types 1-4, BGP-LS (NLRI types 1-4 and 6 with their descriptors as <type, value> TLVs; the '
+        'harness builds the crate\'s structs / enum variants from those pairs); only NLRI of a family the code does not know stay opaque octets',
         'the DECODER (PeerCodec::try_parse / parse_message) is not modelled here (property C03): "decodes to the same routes" is proved against the '
-        'structural reader Spec/WireRead.v written from RFC 4271/4760/7911/5492 and, for the real decoder, judged on every run by the python oracle '
-        '(gen/c04spec.py) on the output of PeerCodec::negotiate(remote, local).try_parse; decode(encode(decode b)) = decode b is checked by the '
-        'harness on every decoded value (differential only, no theorem)',
-        'harness/hx-enc builds Message values through the public constructors of rustybgp-packet (Attribute::new_with_value / new_with_bin / '
-        'new_opaque, Notification::from_notification, RouteDistinguisher::decode, per-family NLRI decode); long buffers are compared through '
+        'structural readers Spec/WireRead.v and Spec/WireReadFam.v written from the RFCs and, for the real decoder, judged on every run by the python '
+        'oracle (gen/c04spec.py: RFC encoders of every family compared octet for octet with the NLRI fields of the frames, RFC 6793 wire form of the '
+        'attributes, what PeerCodec::negotiate(remote, local).try_parse returns); decode(encode(decode b)) = decode b is proved for the NLRI readers '
+        'of the structured families and checked on every decoded value of the real decoder by the harness',
+        'harness/hx-enc builds Message values through the public constructors and public fields of rustybgp-packet (Attribute::new_with_value / '
+        'new_with_bin / new_opaque, Notification::from_notification, RouteDistinguisher::decode, NLRI structs); long buffers are compared through '
         '(length, Fletcher-style digest), buffers up to 256 bytes byte for byte',
+        'IPv6 Flowspec prefix components with a non-zero offset: the code writes (and its decoder and the Coq reader Spec/WireReadFam.v read back) '
+        'ceil(length / 8) octets from bit 0, RFC 8956 3.1 lays out the length - offset bits after the offset. The Coq theorems hold for that layout '
+        '(identical to the RFC for offset 0 only); the python oracle judges by RFC 8956 and reports the difference on every run as the open finding '
+        'C04-fs6-prefix-offset (known_findings.json, corpus/C04/fs6-prefix-offset.json)',
     ]
     assumptions = [
         'the family of a Reach/Unreach is one both sides announced, and the kind of every NLRI is the one of the family (what the export path builds)',
